@@ -284,10 +284,43 @@ class Sim:
         self.P = P
         sens = mc = None
         tables = []
+        last = None             # (object, rows) of the last completed run
         for st in self.hist['steps']:
             op = st['op']
             self.stats['ops'][op] = self.stats['ops'].get(op, 0) + 1
             self.stats['steps'] += 1
+            if op == 'view':
+                # looking at the results (Agg back end) must not change them
+                if last is None:
+                    continue
+                obj, rows0 = last
+                try:
+                    import matplotlib.pyplot as plt
+                    with quiet(), warnings.catch_warnings():
+                        warnings.simplefilter('ignore')
+                        try:
+                            if obj is mc and st.get('what') == 'cdf':
+                                obj.view_cdf()
+                            elif obj is mc:
+                                obj.view_histogram(kde=False)
+                            else:
+                                obj.view()
+                        finally:
+                            plt.close('all')
+                except Exception as e:
+                    self.probe(f'view_raised:{type(e).__name__}')
+                if check:
+                    rows1 = rows_of(obj)
+                    self.stats['oracle_checks'] += 1
+                    ok, where = same(canon(rows1), canon(rows0))
+                    if not ok:
+                        raise Violation(
+                            'rows', 'C15/view/results-changed',
+                            f'get_results() differs after viewing the '
+                            f'results ({len(rows0)} rows before, '
+                            f'{len(rows1)} after) at {where}')
+                    self.probe('view_checked')
+                continue
             if op == 'reset':
                 with quiet(), warnings.catch_warnings():
                     warnings.simplefilter('ignore')
@@ -332,6 +365,7 @@ class Sim:
                 continue
             self.stats['state_changes'] += 1
             rows = rows_of(obj)
+            last = (obj, rows)
             tables.append(rows)
             self.rd.add([op, rows])
             if check and P.excursion:
@@ -391,7 +425,11 @@ class Sim:
                     var.update(comp_values[key])
                     comp[key] = comp_values[key]
                 R.lens.update()
-            vals = R.tol.evaluate()
+            # every operand on its own, straight from the registry (not
+            # through Tolerancing.evaluate, which is under test)
+            from optiland.optimization.operand import operand_registry
+            vals = [operand_registry.get(o.type)(**o.input_data)
+                    for o in R.tol.operands]
         return [float(v) for v in vals], \
             {k: float(v) for k, v in comp.items()}
 
@@ -688,7 +726,8 @@ def run_one(prop, run_seed, run_index, cfg):
             # an explicit target instead of "the nominal value"
             o['target'] = ch.pick([0, 0.0, ch.rounded(ch.uniform(-5, 60), 4)],
                                   tag='xtarget')
-        o['weight'] = ch.pick([1.0, 0.5, 2.0])
+        # weight 0: an operand that is reported but not compensated for
+        o['weight'] = ch.pick([1.0, 0.5, 2.0, 0, 0.0])
         if ch.chance(0.15):
             ks = [k for k in range(1, m.n - 1) if not m.is_plane(k)]
             if ks:
@@ -725,6 +764,9 @@ def run_one(prop, run_seed, run_index, cfg):
         else:
             steps.append({'op': 'mc', 'n': ch.randint(1, cfg.get('max_n', 5)),
                           'seed': ch.seed32()})
+        if steps[-1]['op'] in ('sens', 'mc') and ch.chance(0.2):
+            steps.append({'op': 'view',
+                          'what': ch.pick(['histogram', 'cdf'])})
     hist = {'build': build, 'pre': pre, 'operands': operands,
             'perturbations': perts,
             'compensators': comps, 'steps': steps,
